@@ -92,3 +92,31 @@ package rtpmpeg1audio
 //@     invariant forall j :: 0 <= j && j < len(rets) ==> rets[j] != nil && fresh(rets[j]) && len(rets[j].Payload) <= e.PayloadMaxSize
 //@     invariant forall j :: 0 <= j && j < len(rets) ==> rets[j].SequenceNumber == old(e.sequenceNumber) + uint16(j)
 //@     invariant forall j :: 0 <= j && j < len(rets) ==> rets[j].PayloadType == payloadType && rets[j].SSRC == *e.SSRC
+
+// --- decoder (C08) -------------------------------------------------------------------------
+// The partial frame never exceeds two packets' worth of bytes: a continuation is accepted
+// only at the offset already received (a 16-bit field) and dropped as soon as more than the
+// announced frame length has arrived.
+//@ typeinv Decoder d
+//@   inv[C08] 0 <= d.fragmentsSize && d.fragmentsSize <= 131070
+
+//@ func joinFragments
+//@   opt safety-tag=C08
+//@   requires size >= 0 && size <= 4194304
+//@   ensures[C08] len(ret) == size
+//@   modifies fresh
+//@   loop 1
+//@     invariant _i >= 0 && 0 <= n && n <= size && len(ret) == size && fresh(ret)
+
+//@ func (d *Decoder) resetFragments
+//@   opt typeinv=off
+//@   ensures[C08] d.fragmentsSize == 0 && len(d.fragments) == 0
+//@   modifies d.fragments, d.fragmentsSize
+
+//@ func (d *Decoder) Decode
+//@   opt safety-tag=C08
+//@   requires pkt != nil && len(pkt.Payload) <= 65535
+//@   ensures[C08] err == nil ==> ret != nil
+//@   modifies *
+//@   loop 1
+//@     invariant d.fragmentsSize == 0 && len(buf) <= 65535
